@@ -594,8 +594,9 @@ def run(ctx):
     # second pass: the real outputs of accepted generated documents are conforming documents written with
     # omitted tags and minimal white space (the generator itself writes every tag); they are new inputs
     bad1 = set(i for i, _ in rejects)
-    # X12 (known finding): an attribute-less <colgroup> after a colgroup whose end tag the *input* already omits
-    x12 = re.compile(r'<colgroup[^>]*>(\s|<col[^>]*>|<!--.*?-->)*<colgroup>')
+    # X12 (known finding): an attribute-less <colgroup> directly after a col / colgroup start tag, i.e. after a
+    # column group whose end tag (or both tags) the *input* already omits
+    x12 = re.compile(r'<col(group)?(\s[^>]*)?>(\s|<!--.*?-->)*<colgroup>')
     outs = sorted(set((side[i], cases[i]['frag']) for i in range(n_tree)
                       if i not in bad1 and cases[i]['opts'] == 0 and side[i].encode() != bytes(cases[i]['src'])
                       and not x12.search(side[i])))
